@@ -809,8 +809,8 @@ package gtfs
 //@ func ParseRealtime
 //@   props C02 C04 C05 C06 C07 C12 C18
 //@   requires opts != nil
-//@   ensures [error-or-result] (result.1 == nil) == (result.0 != nil)
-//@   ensures [error-iff-not-protobuf] result.1 == nil <==> pbOK(bytesOf(content))
+//@   ensures [error-or-result also C19] (result.1 == nil) == (result.0 != nil)
+//@   ensures [error-iff-not-protobuf also C19] result.1 == nil <==> pbOK(bytesOf(content))
 //@   ensures [fresh-result] result.0 != nil ==> fresh(result.0)
 //@   ensures [trips-sorted-by-identifier] result.0 != nil ==> (forall a int, b int :: 0 <= a && a < b && b < len(result.0.Trips) ==> !result.0.Trips[b].ID.Less(result.0.Trips[a].ID))
 //@   ensures [vehicles-unique-by-identifier] result.0 != nil ==> (forall a int, b int :: 0 <= a && a < len(result.0.Vehicles) && 0 <= b && b < len(result.0.Vehicles) && a != b && result.0.Vehicles[a].ID != nil && result.0.Vehicles[b].ID != nil ==> *result.0.Vehicles[a].ID != *result.0.Vehicles[b].ID)
@@ -969,3 +969,14 @@ package gtfs
 //@   requires zipFile != nil
 //@   ensures [file-or-error] (result.1 == nil) == (result.0 != nil)
 //@   ensures [opened-file-is-well-formed] result.1 == nil ==> csvOK(result.0) && result.0.currentRow == nil && result.0.rowNumber == 0
+
+// ParseStatic itself: the table of closures (function values loaded from memory) is outside the subset. The function is
+// verified up to that point only (prefix-only): the zip members are indexed by their exact member name, so a member
+// with another name - an extra file, a file in a sub-directory - can never stand in for a table (C01: "extra files
+// leave the result unchanged"), and every indexed value is a non-nil member of the archive (C05).
+//@ func ParseStatic
+//@   props C01 C05
+//@   prefix-only "load of function value from memory"
+//@   loop 1 invariant fileNameToFile != nil && fresh(fileNameToFile) && reader != nil
+//@   loop 1 invariant [members-indexed-by-their-exact-name] forall k constants.StaticFile :: has(fileNameToFile, k) ==> fileNameToFile[k] != nil && string(k) == fileNameToFile[k].Name
+//@   loop 1 invariant [every-member-seen-so-far-is-indexed] forall j int :: 0 <= j && j < $i ==> (exists k constants.StaticFile :: string(k) == reader.File[j].Name && has(fileNameToFile, k))
